@@ -97,7 +97,7 @@ C10ExtraPart(d) ==
                       [rle |-> [j \in 1..n |-> <<V(10 * j + 3, 0), 1>>], order |-> "asc"], f)
                       @@ [datab |-> [rle |-> [j \in 1..n |-> <<V(10 * j, 0), 1>>], order |-> "asc"]]))
   /\ \A ent \in {"ci", "sorted", "max_n", "max_1024"} : \A ty \in {"i32", "f64", "str"} :
-     \A sz \in {<<10, 11, 7>>, <<16, 17, 3>>, <<30, 31, 7>>} : \A qa \in {4, 16, 27} :
+     \A sz \in {<<10, 11, 7>>, <<16, 17, 3>>, <<30, 31, 7>>, <<16, 4, 3>>, <<30, 3, 7>>} : \A qa \in {4, 16, 27} :   \* (the last two: heavy ties)
        AllConfs(LAMBDA ki, li, f : Emit([op |-> "quant.data", entry |-> ent, ty |-> ty, data |-> QData(sz[1], sz[2], sz[3]),
                                          n |-> sz[1], q |-> [n |-> qa, p |-> -5], qa |-> qa, qb |-> 32,
                                          conf |-> Conf(ki, li), li |-> li, first |-> f, grp |-> "c10"]))
